@@ -25,21 +25,60 @@ Begin(e, i) ==
   /\ i = 1 \/ (Key(e, i - 1) \in DOMAIN call /\ call[Key(e, i - 1)].pc = "done")
   /\ CallBegin(Key(e, i), Desc(e, i))
 
-Fault ==
-  /\ faults < MaxFaults
-  /\ faults' = faults + 1
-  /\ \/ \E p \in BOOLEAN : WriterWriteFail(p)
-     \/ \E p \in BOOLEAN : WriteNodeInfoFail(p)
-     \/ DialFail
-     \/ PeerClose
-
-Normal ==
-  \/ \E e \in 1..NEmitters, i \in 1..NEmits : Begin(e, i)
-  \/ \E k \in DOMAIN call : EmitStep(k)
-  \/ WriterStep \/ ConnStep \/ CloseStep
+\* one named wrapper per model action so that `-coverage 1` reports each of them (vacuity guard)
+NF(A) == A /\ UNCHANGED faults
+FA(A) == faults < MaxFaults /\ faults' = faults + 1 /\ A
+A_CallBegin == NF(\E e \in 1..NEmitters, i \in 1..NEmits : Begin(e, i))
+A_EmitStaticReject == NF(\E k \in DOMAIN call : EmitStaticReject(k))
+A_EmitPrecheckReject == NF(\E k \in DOMAIN call : EmitPrecheckReject(k))
+A_EmitPrecheckPass == NF(\E k \in DOMAIN call : EmitPrecheckPass(k))
+A_EmitAcquire == NF(\E k \in DOMAIN call : EmitAcquire(k))
+A_EmitLockedRejectA == NF(\E k \in DOMAIN call : EmitLockedRejectA(k))
+A_EmitRecheckPass == NF(\E k \in DOMAIN call : EmitRecheckPass(k))
+A_EmitLockedRejectB == NF(\E k \in DOMAIN call : EmitLockedRejectB(k))
+A_EmitBody == NF(\E k \in DOMAIN call : EmitBody(k))
+A_WriterFlush == NF(WriterFlush)
+A_WriterWriteDropped == NF(WriterWriteDropped)
+A_WriterWriteEvent == NF(WriterWriteEvent)
+A_WriterPanic == NF(WriterPanic)
+A_WriterPeek == NF(WriterPeek)
+A_WriterSeeClose == NF(WriterSeeClose)
+A_WriterPeerClosed == NF(WriterPeerClosed)
+A_WriterDequeue == NF(WriterDequeue)
+A_WriterTick == NF(WriterTick)
+A_WriterClosingDequeue == NF(WriterClosingDequeue)
+A_WriterClosingEmpty == NF(WriterClosingEmpty)
+A_WriterClosingPeek == NF(WriterClosingPeek)
+A_ConnTop == NF(ConnTop)
+A_DialOk == NF(DialOk)
+A_WriteNodeInfoOk == NF(WriteNodeInfoOk)
+A_ConnEnable == NF(ConnEnable)
+A_ConnDisable == NF(ConnDisable)
+A_ConnCloseConn == NF(ConnCloseConn)
+A_ConnPostCheck == NF(ConnPostCheck)
+A_BumpEpoch == NF(BumpEpoch)
+A_ConnDegrade == NF(ConnDegrade)
+A_ResetAndDrain == NF(ResetAndDrain)
+A_SleepDone == NF(SleepDone)
+A_SleepClosed == NF(SleepClosed)
+A_CloseSetClosed == NF(CloseSetClosed)
+A_CloseSetDisabled == NF(CloseSetDisabled)
+A_CloseSignal == NF(CloseSignal)
+A_CloseReturn == NF(CloseReturn)
+A_WriterWriteFail == FA(\E p \in BOOLEAN : WriterWriteFail(p))
+A_WriteNodeInfoFail == FA(\E p \in BOOLEAN : WriteNodeInfoFail(p))
+A_DialFail == FA(DialFail)
+A_PeerClose == FA(PeerClose)
+MCNext ==
+  \/ A_CallBegin \/ A_EmitStaticReject \/ A_EmitPrecheckReject \/ A_EmitPrecheckPass \/ A_EmitAcquire \/ A_EmitLockedRejectA
+  \/ A_EmitRecheckPass \/ A_EmitLockedRejectB \/ A_EmitBody \/ A_WriterFlush \/ A_WriterWriteDropped \/ A_WriterWriteEvent
+  \/ A_WriterPanic \/ A_WriterPeek \/ A_WriterSeeClose \/ A_WriterPeerClosed \/ A_WriterDequeue \/ A_WriterTick
+  \/ A_WriterClosingDequeue \/ A_WriterClosingEmpty \/ A_WriterClosingPeek \/ A_ConnTop \/ A_DialOk \/ A_WriteNodeInfoOk
+  \/ A_ConnEnable \/ A_ConnDisable \/ A_ConnCloseConn \/ A_ConnPostCheck \/ A_BumpEpoch \/ A_ConnDegrade
+  \/ A_ResetAndDrain \/ A_SleepDone \/ A_SleepClosed \/ A_CloseSetClosed \/ A_CloseSetDisabled \/ A_CloseSignal
+  \/ A_CloseReturn \/ A_WriterWriteFail \/ A_WriteNodeInfoFail \/ A_DialFail \/ A_PeerClose
 
 MCInit == Init /\ faults = 0
-MCNext == (Normal /\ UNCHANGED faults) \/ Fault
 MCSpec == MCInit /\ [][MCNext]_<<vars, faults>>
 
 MCView == <<epoch, seqc, drops, queue, lock, closed, degraded, enabled, closeCh, call, cpc,
